@@ -52,7 +52,16 @@ pub fn parse_files(
     let mut file_library = FileLibrary::new();
     let mut definitions = HashMap::new();
     let mut main_components = Vec::new();
+    let mut unreadable = Vec::new();
     while let Some(file_path) = FileStack::take_next(&mut file_stack) {
+        if !file_stack.is_user_input(&file_path) {
+            if let Err(error) = open_file(&file_path) {
+                // A file which was included is reported at the include statements (below, when
+                // all of them are known).
+                unreadable.push((file_path, error));
+                continue;
+            }
+        }
         match parse_file(&file_path, &mut file_stack, &mut file_library, compiler_version) {
             Ok((file_id, program, mut warnings)) => {
                 if let Some(main_component) = program.main_component {
@@ -69,6 +78,24 @@ pub fn parse_files(
             Err(error) => {
                 reports.push(*error);
             }
+        }
+    }
+    for (file_path, error) in unreadable {
+        let includes = file_stack.included_from(&file_path);
+        if includes.is_empty() {
+            reports.push(*error);
+        }
+        for include in includes {
+            let mut report =
+                errors::FileOsError { path: file_path.display().to_string() }.into_report();
+            if let Some(file_id) = include.meta.file_id {
+                report.add_primary(
+                    include.meta.file_location(),
+                    file_id,
+                    "The file is included here.".to_string(),
+                );
+            }
+            reports.push(report);
         }
     }
     // Create a parse result.
@@ -150,19 +177,7 @@ pub fn parse_file(
     let mut reports = ReportCollection::new();
 
     debug!("reading file `{}`", file_path.display());
-    let (path_str, file_content) = open_file(file_path).map_err(|mut report| {
-        // A file which was included is reported at the include statement.
-        if let Some(include) = file_stack.included_from(file_path) {
-            if let Some(file_id) = include.meta.file_id {
-                report.add_primary(
-                    include.meta.file_location(),
-                    file_id,
-                    "The file is included here.".to_string(),
-                );
-            }
-        }
-        report
-    })?;
+    let (path_str, file_content) = open_file(file_path)?;
     let is_user_input = file_stack.is_user_input(file_path);
     let file_id = file_library.add_file(path_str, file_content.clone(), is_user_input);
 
